@@ -176,8 +176,17 @@ fn same(v: &Verdict, site: &str) -> bool {
 /// Minimise a shuttle run that kills its process: pin the schedule as an explicit list of
 /// task choices, cut its tail, then remove preemptions one at a time, keeping a candidate iff
 /// the child dies with the same signal.
+/// Minimisation re-executes the dying run many times; a run that takes long to die (a runaway
+/// allocation that ends in an out-of-memory abort, say) gets proportionally fewer attempts.
+fn time_budget(budget: usize, one_run: std::time::Duration) -> usize {
+    let per = one_run.as_secs_f64().max(0.005);
+    budget.min((240.0 / per) as usize).max(3)
+}
+
 pub fn minimise_died_sh(case: &Case, budget: usize) -> Option<(Case, Violation, usize)> {
+    let t0 = std::time::Instant::now();
     let (first, list) = execute_isolated_sh(case);
+    let budget = time_budget(budget, t0.elapsed());
     let viol = first.violation.clone()?;
     if viol.oracle != "process-died" {
         return None;
@@ -236,7 +245,9 @@ pub fn minimise_died_sh(case: &Case, budget: usize) -> Option<(Case, Violation, 
 /// Minimise a sequential run that kills its process: the ordinary shrinker over a child-process
 /// executor.
 pub fn minimise_died_seq(case: &Case, budget: usize) -> Option<(Case, Violation, usize)> {
+    let t0 = std::time::Instant::now();
     let first = execute_isolated(case);
+    let budget = time_budget(budget, t0.elapsed());
     let viol = first.violation.clone()?;
     if viol.oracle != "process-died" {
         return None;
